@@ -267,7 +267,7 @@ func checkC13(c *Ctx, r *Report) {
 		ok := len(reads) == 1
 		if ok {
 			ok = false
-			for _, b := range f.Blocks {
+			for _, b := range blocksDeep(f) {
 				ifi := ifOf(b)
 				if ifi == nil {
 					continue
@@ -663,7 +663,7 @@ func isRemotePeerOfArg(c *Ctx, call ssa.CallInstruction, connParam string) bool 
 
 func edgesWhere(f *ssa.Function, p EdgePred) []CFGEdge {
 	var out []CFGEdge
-	for _, b := range f.Blocks {
+	for _, b := range blocksDeep(f) {
 		for s := range b.Succs {
 			if p(b, s) {
 				out = append(out, CFGEdge{b, s})
@@ -701,13 +701,45 @@ func ttlClassesOf(v ssa.Value, ttlIs func(ssa.Value, string) bool) ([]string, *s
 	if !ok {
 		return nil, nil
 	}
-	// the index is the range index of a loop
-	idx, ok := ia.Index.(*ssa.BinOp)
-	if !ok {
-		return nil, nil
+	// the index runs over the whole list: the index of a range loop, or a counter from 0 in steps of 1 while it is
+	// below the length of the list
+	var phi *ssa.Phi
+	if idx, isB := ia.Index.(*ssa.BinOp); isB {
+		if p, isPhi := idx.X.(*ssa.Phi); isPhi && p.Comment == "rangeindex" {
+			phi = p
+		}
 	}
-	phi, ok := idx.X.(*ssa.Phi)
-	if !ok || phi.Comment != "rangeindex" {
+	if p, isPhi := ia.Index.(*ssa.Phi); isPhi && phi == nil {
+		zero, step := false, false
+		for _, e := range p.Edges {
+			if k, isC := constInt(e); isC && k == 0 {
+				zero = true
+			} else if bo, isB := e.(*ssa.BinOp); isB && bo.Op == token.ADD && bo.X == ssa.Value(p) {
+				if k, isC := constInt(bo.Y); isC && k == 1 {
+					step = true
+				}
+			} else {
+				zero, step = false, false
+				break
+			}
+		}
+		bounded := false
+		if ifi := ifOf(p.Block()); ifi != nil && zero && step {
+			if bo, isB := ifi.Cond.(*ssa.BinOp); isB && bo.Op == token.LSS && bo.X == ssa.Value(p) {
+				if call, isCall := bo.Y.(*ssa.Call); isCall && calleeKey(call) == "builtin.len" {
+					lb := strip2(call.Call.Args[0])
+					if sl, isSl := lb.(*ssa.Slice); isSl {
+						lb = sl.X
+					}
+					bounded = lb == ssa.Value(al) || lb == ia.X
+				}
+			}
+		}
+		if bounded {
+			phi = p
+		}
+	}
+	if phi == nil {
 		return nil, nil
 	}
 	var names []string
